@@ -27,7 +27,7 @@ def labels(t):
 
 
 def describe(label, p, o):
-    mons = K.monitors(p, o)
+    mons = K.monitors(p, o) + K.score_monitors(p, o)
     for th, key, text in mons:
         if key == label:
             return th, text
